@@ -107,9 +107,13 @@ def lean_bool(b):
 
 
 def load_findings(prop=None):
-  path = os.path.join(VERIF, 'findings', 'known_findings.json')
-  with open(path) as f:
-    entries = json.load(f)['findings']
+  entries = []
+  names = ['known_findings.json'] + ([prop + '.json'] if prop else [])
+  for name in names:
+    path = os.path.join(VERIF, 'findings', name)
+    if os.path.exists(path):
+      with open(path) as f:
+        entries += json.load(f)['findings']
   if prop is not None:
     entries = [e for e in entries if e['property'] == prop]
   return entries
